@@ -204,8 +204,72 @@ pub fn one_script(r: &mut Rng, nlabels: usize, mode: &str) -> (Vec<u64>, Vec<u64
     (case, w.finish())
 }
 
+/// one established stream, then only reads / writes / shutdowns on it and deliveries
+pub fn single_script(r: &mut Rng, nlabels: usize) -> (Vec<u64>, Vec<u64>) {
+    let (ca, ea) = g_cfg(r, "single");
+    let (cb, eb) = g_cfg(r, "single");
+    let mut case = vec![30u64, 1];
+    case.extend(ea);
+    case.extend(eb);
+    let mut w = World::new(&ca, &cb);
+    let prologue: Vec<Vec<u64>> = vec![vec![10, 0, 80, 1, 104], vec![18, 0], vec![18, 1], vec![11, 0, 0], vec![12, 1]];
+    for l in prologue {
+        w.label(&l);
+        case.push(l.len() as u64);
+        case.extend(l);
+    }
+    let mut tag = 0u8;
+    for _ in 0..nlabels {
+        let mut cands: Vec<(u32, Vec<u64>)> = Vec::new();
+        for d in 0..2 {
+            if w.link_len(d) > 0 {
+                cands.push((5 + 2 * w.link_len(d).min(4) as u32, vec![18, d as u64]));
+            }
+        }
+        for e in 0..2u64 {
+            tag = tag.wrapping_add(1);
+            let mut l = vec![13, e, 0];
+            let d = g_data(r, tag);
+            lp(&mut l, &d);
+            cands.push((6, l));
+            let mut l = vec![14, e, 0];
+            let n = r.below(4);
+            l.push(n);
+            for _ in 0..n {
+                tag = tag.wrapping_add(1);
+                let d = g_data(r, tag);
+                lp(&mut l, &d);
+            }
+            cands.push((2, l));
+            cands.push((7, vec![15, e, 0, r.pick(&[1u64, 2, 8, 8, 0])]));
+            cands.push((1, vec![16, e, 0]));
+        }
+        let total: u32 = cands.iter().map(|c| c.0).sum();
+        let mut pick = r.below(u64::from(total)) as u32;
+        let mut chosen = cands[0].1.clone();
+        for (wt, l) in cands {
+            if pick < wt {
+                chosen = l;
+                break;
+            }
+            pick -= wt;
+        }
+        w.label(&chosen);
+        case.push(chosen.len() as u64);
+        case.extend(chosen);
+    }
+    (case, w.finish())
+}
+
 pub fn generate(a: &Args, out: &mut Out) {
     let mut r = Rng(a.seed ^ 0x30);
+    if a.mode.contains("single") {
+        for k in 0..a.n {
+            let (case, res) = single_script(&mut r, if k % 4 == 0 { 120 } else { 40 });
+            out.emit(&case, &res);
+        }
+        return;
+    }
     for k in 0..a.n {
         let nl = if k % 5 == 0 { 80 } else { 30 };
         let (case, res) = one_script(&mut r, nl, &a.mode);
